@@ -37,7 +37,9 @@ func memoFinding(x *X, ref *refpeg.Result, strict bool) string {
 	return ""
 }
 
-func memoUnsound(x *X, ref *refpeg.Result, strict bool) bool { return memoFinding(x, ref, strict) != "" }
+func memoUnsound(x *X, ref *refpeg.Result, strict bool) bool {
+	return memoFinding(x, ref, strict) != ""
+}
 
 // ---------------------------------------------------------------------------------
 // C06: Memoize / Debug / Statistics never change results; Memoize bounds the work
